@@ -389,6 +389,38 @@ theorem rates_rows (cfg : Cfg) (hns : cfg.sortGroupsByLabel = false) (t : List (
     rw [hp, hn, hsum]
     simp
 
+/-- the rank test, on two vectors of rates: no pair of positions is strictly inverted between them -/
+def noInversion (tr dr : List (Option Rat)) : Bool :=
+  (pairs (tr.zip dr)).all (fun p =>
+    !((rateLt p.1.1 p.2.1 && rateLt p.2.2 p.1.2) || (rateLt p.2.1 p.1.1 && rateLt p.1.2 p.2.2)))
+
+theorem pairs_map' {α β : Type} (f : α → β) : ∀ (l : List α), pairs (l.map f) = (pairs l).map (fun p => (f p.1, f p.2))
+  | [] => rfl
+  | x :: t => by
+    simp only [List.map_cons, pairs, List.map_append, List.map_map, pairs_map' f t]
+    rfl
+
+theorem ranksPossible_rates (t d : List (String × Row)) :
+    ranksPossible t d = noInversion (t.map (fun p => rate p.2)) (d.map (fun p => rate p.2)) := by
+  unfold ranksPossible noInversion
+  rw [List.zip_map, pairs_map', List.all_map]
+  rfl
+
+/-- **Ranking the labels by target rate gives compatible orders on both samples**: for a grouping that passed the dev tests,
+    with tables that count and sum the rows of the train and dev columns, no two labels are strictly inverted between the
+    vector of `groupby(label)[y].mean()` of the transformed train sample and that of the transformed dev sample. -/
+theorem dev_rank_rows (cfg : Cfg) (hns : cfg.sortGroupsByLabel = false) (train d : List (String × Row))
+    (col colDev : List String) (y yDev : List Rat) (comb : List (List String))
+    (hc : Counts train col) (hs : Sums train col y) (hcov : Covers comb col)
+    (hcd : Counts d colDev) (hsd : Sums d colDev yDev) (hcovd : Covers comb colDev)
+    (h : (viability cfg train (some d) comb).viable = true) :
+    noInversion ((List.range comb.length).map (meanOfLabel comb col y))
+      ((List.range comb.length).map (meanOfLabel comb colDev yDev)) = true := by
+  obtain ⟨_, _, hr⟩ := viable_dev h
+  rw [ranksPossible_rates, rates_rows cfg hns train col y comb hc hs hcov,
+    rates_rows cfg hns d colDev yDev comb hcd hsd hcovd] at hr
+  exact hr
+
 /-! ## … and the group index is what `transform` outputs -/
 
 /-- **The transformed column is the column of group indices, label by label**: for a fitted qualitative feature (order `g`,
